@@ -145,6 +145,12 @@ func c19r2(c *Ctx) {
 				if !isFromHere {
 					continue
 				}
+				// a further read-only store lookup keyed by a field of the block (parent state, ancestor
+				// timestamp) processes nothing: its own result is only as good as this lookup's flag, which
+				// every real use below still has to pass
+				if isStoreProbe(f, m, blk) {
+					continue
+				}
 				// forwarding (block, ok) together to the caller is a use under the caller's responsibility
 				if _, isRet := m.AST.(*ast.ReturnStmt); isRet && f.MentionsObj(m.AST, false, okv) {
 					continue
@@ -157,6 +163,40 @@ func c19r2(c *Ctx) {
 			ob.Check(bad == "", nil, "the block obtained at %s is used at %s on a path where the lookup may have failed (pruned or unknown block): a zero block is processed instead of an error being returned", c.P.Pos(call.Pos()), bad)
 		}
 	}
+}
+
+// isStoreProbe: node m is `x, ok := <store>.<Getter>(… blk.field …)` — a call of a
+// chain.Store method whose last result is a bool, with blk mentioned only inside its operands.
+func isStoreProbe(f *ir.Func, m *cfgx.Node, blk types.Object) bool {
+	as, ok := m.AST.(*ast.AssignStmt)
+	if !ok || len(as.Rhs) != 1 {
+		return false
+	}
+	call, ok := ast.Unparen(as.Rhs[0]).(*ast.CallExpr)
+	if !ok {
+		return false
+	}
+	fn := f.Callee(call)
+	if fn == nil {
+		return false
+	}
+	sig := fn.Type().(*types.Signature)
+	if sig.Recv() == nil || !ir.IsNamed(sig.Recv().Type(), ir.PkgPath("chain"), "Store") {
+		return false
+	}
+	res := sig.Results()
+	if res.Len() < 2 {
+		return false
+	}
+	if b, ok := res.At(res.Len() - 1).Type().Underlying().(*types.Basic); !ok || b.Kind() != types.Bool {
+		return false
+	}
+	for _, l := range as.Lhs {
+		if f.MentionsObj(l, false, blk) {
+			return false
+		}
+	}
+	return true
 }
 
 // reachOnlyViaFrom: every path from node `from` to node `to` crosses one of edges.
